@@ -16,6 +16,7 @@ pub mod c10;
 pub mod c11;
 pub mod c12;
 pub mod c14;
+pub mod c15;
 pub mod c17;
 pub mod c19;
 pub mod c20;
@@ -35,6 +36,7 @@ const TABLE: &[(&str, RunFn, ReplayFn)] = &[
     ("C11", c11::run, c11::replay),
     ("C12", c12::run, c12::replay),
     ("C14", c14::run, c14::replay),
+    ("C15", c15::run, c15::replay),
     ("C17", c17::run, c17::replay),
     ("C19", c19::run, c19::replay),
     ("C20", c20::run, c20::replay),
